@@ -6,7 +6,10 @@
 //@ harness c10_input_canonical kind=complete tier=quick fns=Input::read,Input::write,OutputIdentifier::read,OutputIdentifier::write,CommitWrapper::read,CommitWrapper::write,Commitment::read,Commitment::write bound=-
 //@ harness c10_txkernel_canonical kind=complete tier=quick fns=TxKernel::read,TxKernel::write,KernelFeatures::read,KernelFeatures::write,Signature::read,Signature::write bound=-
 //@ harness c10_txkernel_hash_version_independent kind=complete tier=quick fns=TxKernel::write bound=-
-//@ harness c10_inputs_hash_version_independent kind=bounded tier=quick fns=Inputs::write,Input::write,CommitWrapper::write bound=<=2_inputs,_both_Inputs_variants
+//@ repeat N in 0..=2
+//@ harness c10_inputs_hash_version_independent_fc_{N} kind=bounded tier=quick fns=Inputs::write,Input::write,CommitWrapper::write bound={N}_inputs,_FeaturesAndCommit
+//@ harness c10_inputs_hash_version_independent_co_{N} kind=bounded tier=quick fns=Inputs::write,CommitWrapper::write bound={N}_inputs,_CommitOnly
+//@ end
 use crate::ser::SerializationMode;
 use crate::verif_kani_support::*;
 
@@ -132,12 +135,11 @@ fn any_commit() -> Commitment {
 	b[32] = kani::any();
 	Commitment(b)
 }
-fn any_inputs() -> Inputs {
-	let n: u8 = kani::any();
+fn inputs_of(commit_only: bool, n: usize) -> Inputs {
 	let f1 = if kani::any() { OutputFeatures::Plain } else { OutputFeatures::Coinbase };
 	let f2 = if kani::any() { OutputFeatures::Plain } else { OutputFeatures::Coinbase };
 	let (c1, c2) = (any_commit(), any_commit());
-	if kani::any() {
+	if !commit_only {
 		match n {
 			0 => Inputs::FeaturesAndCommit(vec![]),
 			1 => Inputs::FeaturesAndCommit(vec![Input::new(f1, c1)]),
@@ -154,31 +156,41 @@ fn any_inputs() -> Inputs {
 
 /// Inputs: the byte stream hashed does not depend on the protocol version; in full mode
 /// versions >= 3 carry commitments only and versions <= 2 cannot carry commit-only inputs.
-#[kani::proof]
-#[kani::unwind(72)]
-#[kani::stub(alloc::fmt::format, stub_format)]
-fn c10_inputs_hash_version_independent() {
-	let inputs = any_inputs();
-	let mut w1 = KWriter::<70>::new(kani::any(), SerializationMode::Hash);
-	let mut w2 = KWriter::<70>::new(kani::any(), SerializationMode::Hash);
-	assert!(inputs.write(&mut w1).is_ok() && inputs.write(&mut w2).is_ok());
-	assert!(w1.pos == w2.pos);
-	let mut i = 0;
-	while i < 70 {
-		if i < w1.pos {
-			assert!(w1.buf[i] == w2.buf[i], "C10: Inputs hash preimage independent of protocol version");
+/// One harness per (variant, length): the shape is concrete, every byte and version symbolic.
+macro_rules! inputs_hash {
+	($name:ident, $co:expr, $n:expr) => {
+		#[kani::proof]
+		#[kani::unwind(72)]
+		#[kani::stub(alloc::fmt::format, stub_format)]
+		fn $name() {
+			let inputs = inputs_of($co, $n);
+			let mut w1 = KWriter::<70>::new(kani::any(), SerializationMode::Hash);
+			let mut w2 = KWriter::<70>::new(kani::any(), SerializationMode::Hash);
+			assert!(inputs.write(&mut w1).is_ok() && inputs.write(&mut w2).is_ok());
+			assert!(w1.pos == w2.pos);
+			let mut i = 0;
+			while i < 70 {
+				if i < w1.pos {
+					assert!(w1.buf[i] == w2.buf[i], "C10: Inputs hash preimage independent of protocol version");
+				}
+				i += 1;
+			}
+			let ver: u32 = kani::any();
+			let mut wf = KWriter::<70>::new(ver, SerializationMode::Full);
+			let r = inputs.write(&mut wf);
+			let n = inputs.len();
+			assert!(n == $n);
+			if n > 0 {
+				match (&inputs, ver >= 3) {
+					(_, true) => assert!(r.is_ok() && wf.pos == 33 * n, "C10: v3+ carries commitments only"),
+					(Inputs::FeaturesAndCommit(_), false) => assert!(r.is_ok() && wf.pos == 34 * n),
+					(Inputs::CommitOnly(_), false) => assert!(r.is_err(), "C10: commit-only inputs cannot be carried below v3"),
+				}
+			}
 		}
-		i += 1;
-	}
-	let ver: u32 = kani::any();
-	let mut wf = KWriter::<70>::new(ver, SerializationMode::Full);
-	let r = inputs.write(&mut wf);
-	let n = inputs.len();
-	if n > 0 {
-		match (&inputs, ver >= 3) {
-			(_, true) => assert!(r.is_ok() && wf.pos == 33 * n, "C10: v3+ carries commitments only"),
-			(Inputs::FeaturesAndCommit(_), false) => assert!(r.is_ok() && wf.pos == 34 * n),
-			(Inputs::CommitOnly(_), false) => assert!(r.is_err(), "C10: commit-only inputs cannot be carried below v3"),
-		}
-	}
+	};
 }
+//@ repeat N in 0..=2
+inputs_hash!(c10_inputs_hash_version_independent_fc_{N}, false, {N});
+inputs_hash!(c10_inputs_hash_version_independent_co_{N}, true, {N});
+//@ end
